@@ -24,7 +24,8 @@
 //     must not give NaN silently ("spurious-complex", "nan-for-complex");
 //   evaluation: reference evaluator from the mathematical definitions (asec x = acos(1/x), coth = cosh/sinh, ...) at
 //     2*prec+64 bits; conditioning is estimated by re-running it with every intermediate result perturbed by a
-//     relative 2^-prec; V must lie within 8 * spread + 4 ulp.  This part is TESTING, not proof.
+//     relative 2^-prec; V must lie within 8 * spread + 4 ulp (cases that lose more than half of the digits to such
+//     perturbations are not judged).  This part is TESTING, not proof.
 #include <cmath>
 #include <map>
 #include <vector>
@@ -628,7 +629,17 @@ static void run_expr(const std::string &rest, int wfd)
                 } else {
                     U = mpfr_zero_p(d) ? "0" : "inf";
                 }
-                if (mpfr_cmp(d, tol) > 0)
+                // hopelessly ill-conditioned (more than half of the digits are lost to one-ulp perturbations of the
+                // intermediate results, e.g. tan of a huge argument): no accuracy claim can be tested there
+                mpfr_t lim;
+                mpfr_init2(lim, r.hp);
+                mpfr_abs(lim, ref, MPFR_RNDN);
+                mpfr_mul_2si(lim, lim, -(long)(prec / 2), MPFR_RNDN);
+                bool ill = mpfr_cmp(spread, lim) > 0;
+                mpfr_clear(lim);
+                if (ill)
+                    U = "-";
+                else if (mpfr_cmp(d, tol) > 0)
                     oracle += " inaccurate:" + class_name(*b) + "(" + U + "ulp)";
                 mpfr_clear(ulp);
             }
@@ -758,8 +769,11 @@ static std::string run_arith(const std::string &rest)
         int sa = mpq_sgn(a.q), sb = mpq_sgn(b.q);
         bool b_is_int = mpz_cmp_ui(mpq_denref(b.q), 1) == 0;
         if (op == "pow") {
+            // the library answers "complex" for every negative base unless the exponent is an exact Integer
+            // (a design choice: an inexact exponent is never treated as an integer); a non-negative base is real
             bool complex_result = sa < 0 && !b_is_int;
-            if (threw && out == "EXN:6" && !complex_result)
+            bool may_throw = sa < 0 && b.kind != 'I';
+            if (threw && out == "EXN:6" && !may_throw)
                 oracle += " spurious-complex" + tag;
             if (!threw && is_a<RealMPFR>(*res) && complex_result
                 && mpfr_nan_p(down_cast<const RealMPFR &>(*res).i.get_mpfr_t()))
@@ -799,7 +813,7 @@ static std::string run_arith(const std::string &rest)
                 mpfr_set_q(want, ex, MPFR_RNDN);
                 if (m.get_prec() == pmax && mpfr_number_p(m.i.get_mpfr_t())
                     && mpfr_cmp(want, m.i.get_mpfr_t()) != 0)
-                    oracle += " misrounded" + tag + "[want " + fmt_mpfr(want) + "]";
+                    oracle += " misrounded" + tag + "[want=" + fmt_mpfr(want) + "]";
                 mpfr_clear(want);
             } else if (op == "pow" && sa > 0 && mpfr_number_p(m.i.get_mpfr_t())) {
                 // general real power: high precision reference (testing); must be within 1/2 ulp (+ 2^-20)
